@@ -192,11 +192,14 @@ type watchProc struct {
 	stderr *os.File
 }
 
-func startWatch(c *h.Ctx, dir, outer, straceLog string) (*watchProc, error) {
+func startWatch(c *h.Ctx, dir, outer, straceLog string, two bool) (*watchProc, error) {
 	home := outer + "/home"
 	os.MkdirAll(home, 0o755)
 	se, _ := os.Create(outer + "/stderr")
 	cmd := exec.Command("strace", "-f", "-qq", "-e", "trace=inotify_add_watch,inotify_rm_watch", "-o", straceLog, c.Bin, "-c", outer+"/tasks.yaml", "-d", "watch", "w")
+	if two {
+		cmd.Args = append(cmd.Args, "w2")
+	}
 	cmd.Dir = dir
 	cmd.Env = h.BaseEnv(home)
 	cmd.Stderr = se
@@ -271,6 +274,20 @@ func runC20(c *h.Ctx, idx int, events bool) {
 		}
 	}
 	runlog := outer + "/runlog"
+	// a second watcher in the same invocation (own patterns, own task), and sometimes a named execution
+	// context whose before-hook outlasts the watcher's dispatch interval
+	var inc2, exc2, sel2 []string
+	two := r.Chance(35)
+	if two {
+		for i := 0; i < r.Range(1, 2); i++ {
+			inc2 = append(inc2, genPattern(r, tree, events))
+		}
+		if r.Chance(40) {
+			exc2 = append(exc2, genPattern(r, tree, events))
+		}
+		sel2 = tree.selected(inc2, exc2, false)
+	}
+	slowCtx := events && r.Chance(25)
 	w := gen.OM{{K: "watch", V: inc}, {K: "task", V: "t"}}
 	if len(exc) > 0 {
 		w.Set("exclude", exc)
@@ -278,10 +295,49 @@ func runC20(c *h.Ctx, idx int, events bool) {
 	if len(subs) > 0 {
 		w.Set("events", subs)
 	}
-	cfg := gen.OM{{K: "tasks", V: gen.OM{{K: "t", V: gen.OM{{K: "command", V: []interface{}{fmt.Sprintf("printf 'RUN name=[%%s] path=[%%s]\\n' \"$EventName\" \"$EventPath\" >> '%s'", runlog)}}}}}}, {K: "watchers", V: gen.OM{{K: "w", V: w}}}}
+	mkTask := func(tag string) gen.OM {
+		t := gen.OM{{K: "command", V: []interface{}{fmt.Sprintf("printf '%s name=[%%s] path=[%%s]\\n' \"$EventName\" \"$EventPath\" >> '%s'", tag, runlog)}}}
+		if slowCtx {
+			t.Set("context", "slow")
+		}
+		return t
+	}
+	cfg := gen.OM{{K: "tasks", V: gen.OM{{K: "t", V: mkTask("RUN")}}}, {K: "watchers", V: gen.OM{{K: "w", V: w}}}}
+	if slowCtx {
+		cfg = append(gen.OM{{K: "contexts", V: gen.OM{{K: "slow", V: gen.OM{{K: "before", V: []interface{}{"sleep 1.5"}}}}}}}, cfg...)
+	}
+	if two {
+		w2 := gen.OM{{K: "watch", V: inc2}, {K: "task", V: "t2"}}
+		if len(exc2) > 0 {
+			w2.Set("exclude", exc2)
+		}
+		if len(subs) > 0 {
+			w2.Set("events", subs)
+		}
+		cfg[len(cfg)-2].V = gen.OM{{K: "t", V: mkTask("RUN")}, {K: "t2", V: mkTask("RUN2")}}
+		cfg[len(cfg)-1].V = gen.OM{{K: "w", V: w}, {K: "w2", V: w2}}
+	}
 	h.WriteFile(outer+"/tasks.yaml", gen.YAML(cfg))
 	straceLog := outer + "/strace.log"
 	cas := map[string]interface{}{"tree_files": tree.files, "tree_dirs": tree.dirs, "include": inc, "exclude": exc, "events": subs, "expected_paths": sel}
+	if two {
+		cas["second_watcher"] = map[string]interface{}{"include": inc2, "exclude": exc2, "expected_paths": sel2}
+	}
+	if slowCtx {
+		cas["context_before_hook"] = "sleep 1.5"
+	}
+	sel1 := sel
+	if two {
+		// both watchers register with the kernel; the process as a whole must observe the union
+		u := append([]string{}, sel...)
+		for _, p := range sel2 {
+			if !contains(u, p) {
+				u = append(u, p)
+			}
+		}
+		sort.Strings(u)
+		sel = u
+	}
 
 	// reference observer: an independent fsnotify watcher on the expected path set
 	var ref *fsnotify.Watcher
@@ -311,7 +367,7 @@ func runC20(c *h.Ctx, idx int, events bool) {
 			}
 		}()
 	}
-	wp, err := startWatch(c, real, outer, straceLog)
+	wp, err := startWatch(c, real, outer, straceLog, two)
 	if err != nil {
 		c.Inconclusive("cannot start strace: " + err.Error())
 		return
@@ -319,7 +375,11 @@ func runC20(c *h.Ctx, idx int, events bool) {
 	defer wp.stop()
 	c.Eval(1)
 	runLines := func() []string { return lines(h.ReadFile(runlog)) }
-	if !waitFor(20*time.Second, func() bool { return len(runLines()) >= 1 }) {
+	nInit := 1
+	if two {
+		nInit = 2
+	}
+	if !waitFor(25*time.Second, func() bool { return len(runLines()) >= nInit }) {
 		cas["stderr"] = tail(stripANSI(h.ReadFile(outer+"/stderr")), 1500)
 		if strings.Contains(h.ReadFile(outer+"/stderr"), "panic:") {
 			c.Violate("watch-crash/"+h.TopFrame(h.ReadFile(outer+"/stderr")), "taskctl watch died", cas)
@@ -363,7 +423,10 @@ func runC20(c *h.Ctx, idx int, events bool) {
 		}
 		c.Violate(sig, fmt.Sprintf("include %v exclude %v: the watcher registered %v, the patterns select %v (missing %v, extra %v)", inc, exc, got, sel, missing, extra), cas)
 	}
-	c.Nontrivial(fmt.Sprint(tree.files, inc, exc, subs))
+	c.Nontrivial(fmt.Sprint(tree.files, inc, exc, subs, inc2, exc2, slowCtx))
+	if two {
+		c.Count("cases_with_two_watchers", 1)
+	}
 	if !events {
 		if idx < 2 {
 			c.Sample(cas)
@@ -371,8 +434,16 @@ func runC20(c *h.Ctx, idx int, events bool) {
 		return
 	}
 	// ---- event half
-	if n := len(runLines()); n != 1 || runLines()[0] != "RUN name=[] path=[]" {
-		c.Violate("events/initial-run", fmt.Sprintf("expected exactly one initial run with empty event, saw %v", runLines()), cas)
+	{
+		init := append([]string{}, runLines()...)
+		sort.Strings(init)
+		wantInit := "RUN name=[] path=[]"
+		if two {
+			wantInit = "RUN name=[] path=[] RUN2 name=[] path=[]"
+		}
+		if strings.Join(init, " ") != wantInit {
+			c.Violate("events/initial-run", fmt.Sprintf("expected exactly one initial run (empty event) per watcher, saw %v", init), cas)
+		}
 	}
 	dead := map[string]bool{}
 	pool := append([]string{}, tree.files...)
@@ -476,11 +547,19 @@ func runC20(c *h.Ctx, idx int, events bool) {
 				continue
 			}
 			rel, _ := filepath.Rel(real, ev.Name)
-			key := fmt.Sprintf("RUN name=[%s] path=[%s]", name, rel)
-			if subscribed[name] {
-				want[key]++
-			} else {
-				forbidden[key] = true
+			for _, wk := range []struct {
+				tag string
+				sel []string
+			}{{"RUN", sel1}, {"RUN2", sel2}} {
+				if !contains(wk.sel, rel) {
+					continue
+				}
+				key := fmt.Sprintf("%s name=[%s] path=[%s]", wk.tag, name, rel)
+				if subscribed[name] {
+					want[key]++
+				} else {
+					forbidden[key] = true
+				}
 			}
 		}
 		total := 0
